@@ -128,7 +128,7 @@ ADDED = {
     "C18": "the YAML document is read while its stream is open (O13.7)",
     "C19": "child translations receive only where=; the pipeline translator's linking loop (shared with C05)",
 }
-EVERY = "O0.1: every function of the property's anchor files is interpreted once and reads no local or global name that no earlier statement on the path has bound (positive control embedded)"
+EVERY = "for the property's anchor files (thorough tier: the whole package), each with an embedded control example -- O0.1: every function is interpreted once and reads no local or global name that no earlier statement on the path has bound; O0.2: every read self.x names something the class hierarchy defines or assigns; O0.3: no method mutates through self a mutable object created once in the class body and never re-bound per instance"
 
 
 def main():
